@@ -289,17 +289,7 @@ def _input_wrappers(ck, repo):
             got.add("error" if t.startswith("CoercionResult(errors=[coercion_error(") else ("inner" if t == inner_txt else t[:60]))
         want = {"error"} if isnull else {"inner"}
         ck.ob(f"inputs.non_null_coercer table: value is None = {isnull}", got == want, f, f.node, construct=f"nonnull:is_null={isnull}", detail=f"got {sorted(got)}" + atoms.note())
-    w = repo.func(INP + "null_coercer.py", "null_coercer_wrapper.wrapper")
-    wv = FuncView(w)
-    wp = w.positional_params
-    atoms = Atoms({f"{wp[2]} is None": "is_null"})
-    for isnull in (True, False):
-        got = set()
-        for tr in wv.cfg.simulate(lambda n, env: evaluate(n.ast, env, {"is_null": isnull}, atoms)):
-            rv = _ret_class(tr)
-            got.add(rv if isinstance(rv, str) else unparse(rv))
-        want = {"CoercionResult(value=None)"} if isnull else {f"await coercer({wp[0]}, {wp[1]}, {wp[2]}, {wp[3]}, **kwargs)"}
-        ck.ob(f"inputs.null_coercer_wrapper table: value is None = {isnull}", got == want, w, w.node, construct=f"nullwrap:is_null={isnull}", detail=f"got {sorted(got)}" + atoms.note())
+    input_null_wrapper_table(ck, repo)
     n_dec = 0
     for rel, name in (("scalar_coercer.py", "scalar_coercer"), ("enum_coercer.py", "enum_coercer"), ("list_coercer.py", "list_coercer"),
                       ("input_object_coercer.py", "input_object_coercer")):
@@ -344,6 +334,23 @@ def _input_wrappers(ck, repo):
         exts = [c for c in fv.calls("extend") if unparse(c.func.value) == "errors"]
         ok = len(apps) == 1 and len(exts) == 1 and fv.guarded(exts[0], lambda t: t == "coerced_errors", "T") and fv.guarded(apps[0], lambda t: t == "coerced_errors", "F")
         ck.ob("inputs.list_coercer: item errors are accumulated, item values kept otherwise", ok, f, apps[0] if apps else f.node, construct="list:accumulate")
+
+
+def input_null_wrapper_table(ck, repo):
+    """Only an explicit null short-circuits input coercion; every other value - including the falsy
+    ones (0, 0.0, "", false, [], {}) - goes through the coercer (shared with C10.R5)."""
+    w = repo.func(INP + "null_coercer.py", "null_coercer_wrapper.wrapper")
+    wv = FuncView(w)
+    wp = w.positional_params
+    atoms = Atoms({f"{wp[2]} is None": "is_null"})
+    for isnull in (True, False):
+        got = set()
+        for tr in wv.cfg.simulate(lambda n, env: evaluate(n.ast, env, {"is_null": isnull}, atoms)):
+            rv = _ret_class(tr)
+            got.add(rv if isinstance(rv, str) else unparse(rv))
+        want = {"CoercionResult(value=None)"} if isnull else {f"await coercer({wp[0]}, {wp[1]}, {wp[2]}, {wp[3]}, **kwargs)"}
+        ck.ob(f"inputs.null_coercer_wrapper table: value is None = {isnull}", got == want, w, w.node, construct=f"nullwrap:is_null={isnull}",
+              detail=f"got {sorted(got)}; a truthiness test instead of `is None` lets 0, \"\", false skip the scalar's input rules" + atoms.note())
 
 
 def _input_object(ck, repo):
